@@ -1,16 +1,16 @@
 #!/bin/bash
 # import_seed.sh <ID> <N> : verify and store a seeded change under /verif/seeded/<ID>-<N>/
-ID=$1; N=$2; O=/tmp/mutout/$ID; D=/verif/seeded/$ID-$N
+ID=$1; N=$2; O=/tmp/mutout/$ID; PID=${ID%b}; DN=$N; [ "$PID" != "$ID" ] && DN=$((N+2)); D=/verif/seeded/$PID-$DN
 OUT=$(/verif/tools/verify_seed.sh $ID $N 2>&1); echo "$OUT" | tail -4
 echo "$OUT" | grep -q "RESULT: CONFIRMED" || exit 1
 mkdir -p $D; cp $O/patch$N.diff $D/patch.diff; cp $O/demo$N.c $D/demo.c
-python3 - "$ID" "$N" "$OUT" <<'PY'
+python3 - "$ID" "$N" "$OUT" "$D" "$PID" <<'PY'
 import json,sys
-i,n,out=sys.argv[1:4]
+i,n,out,d,pid=sys.argv[1:6]
 m=json.load(open('/tmp/mutout/%s/meta%s.json'%(i,n)))
-m['breaks_property']=i
+m['breaks_property']=pid; m['property']=pid; m['round']=2 if i!=pid else 1
 m['confirmed_by']={'script':'tools/verify_seed.sh %s %s (scratch worktree /tmp/mut/%s, removed afterwards)'%(i,n,i),
   'observed':[l for l in out.split('\n') if l.startswith(('ctest','demo w','RESULT'))]}
-json.dump(m,open('/verif/seeded/%s-%s/meta.json'%(i,n),'w'),indent=1)
+json.dump(m,open(d+'/meta.json','w'),indent=1)
 PY
 echo "stored $D"
